@@ -1,7 +1,7 @@
 (* Extraction of the executable models to OCaml.  ExtrOcamlBasic only: bool, option, list,
    prod, unit, sumbool are mapped to OCaml's; N, positive, nat, Z stay the extracted datatypes. *)
 Require Import ExtrOcamlBasic.
-From SKV Require Import Params Base.Crc32 Codec.Wal Codec.WalInst Base.Lex Txn.WriteSet Spec.Store Spec.Cursor Spec.Machine Lsm.CompactKey Misc.Lock Misc.LockInst Txn.RangeIter Conc.Oracle Conc.CommitSeq Misc.OMap Misc.BptKey Misc.Pages Misc.BptInst Codec.IKey Codec.Separator Codec.Bloom Codec.Table Codec.Regions Codec.RegionsInst Crash.Fail Crash.FailParams Crash.FailInst Conc.Pipeline Conc.PipelineExplore Crash.Proto Codec.VlogParams Codec.VlogPtr Lsm.Vlog Lsm.VlogInst Lsm.VlogOpen Lsm.LevelsParams Lsm.Levels.
+From SKV Require Import Params Base.Crc32 Codec.Wal Codec.WalInst Base.Lex Txn.WriteSet Spec.Store Spec.Cursor Spec.Machine Lsm.CompactKey Misc.Lock Misc.LockInst Txn.RangeIter Conc.Oracle Conc.CommitSeq Misc.OMap Misc.BptKey Misc.Pages Misc.BptInst Codec.IKey Codec.Separator Codec.Bloom Codec.Table Codec.Regions Codec.RegionsInst Crash.Fail Crash.FailParams Crash.FailInst Conc.Pipeline Conc.PipelineExplore Crash.Proto Codec.VlogParams Codec.VlogPtr Lsm.Vlog Lsm.VlogInst Lsm.VlogOpen Lsm.LevelsParams Lsm.Levels Lsm.Checkpoint Lsm.CheckpointParams Lsm.CheckpointInst.
 Extraction Language OCaml.
 Extraction "skv_model.ml"
   WalInst.wal_sessions WalInst.wal_read_all WalInst.wal_repair WalInst.wal_known_unparsed_tail WalInst.wal_params_ok WalInst.WB
@@ -45,4 +45,6 @@ Extraction "skv_model.ml"
   Levels.Lv.get Levels.Lv.get_hit Levels.Lv.view_of_all Levels.Lv.current Levels.Lv.current_sel Levels.Lv.rules_okb Levels.Lv.srules_okb Levels.Lv.step Levels.Lv.st0
   Levels.Lv.inv_b Levels.Lv.age_ordered_b Levels.Lv.sel_ok_b Levels.Lv.select_tables Levels.Lv.desc_log_b Levels.Lv.above_b Levels.Lv.lv_ordered_b Levels.Lv.uniq_b
   Levels.Lv.table_wf_b Levels.Lv.key_disjoint_b Levels.Lv.ranges_sorted_b Levels.Lv.mem_log Levels.Lv.tab_versions Levels.Lv.all_versions Levels.Lv.lvers
-  Levels.Lv.op_ok_b Levels.Lv.op_keeps_b LevelsParams.LEVELS_ANCHORS_OK.
+  Levels.Lv.op_ok_b Levels.Lv.op_keeps_b LevelsParams.LEVELS_ANCHORS_OK
+  CheckpointInst.cki_step CheckpointInst.cki_fill_all CheckpointInst.cki_open_ckpt CheckpointInst.cki_init CheckpointInst.ckpt_params_ok
+  Checkpoint.kread Checkpoint.store_vers Checkpoint.tables_vers Checkpoint.aget CheckpointParams.CKPT_RESTORE_STEPS.
